@@ -432,7 +432,7 @@ func main() {
 		os.Exit(2)
 	}
 	os.MkdirAll(*out, 0o755)
-	h := &harness{prop: *prop, w: &shardWriter{dir: *out, max: 120}, fs: &failSet{}, dist: map[string]int{}, seen: map[string]bool{}}
+	h := &harness{prop: *prop, w: &shardWriter{dir: *out, max: 120}, fs: &failSet{}, dist: map[string]int{}, seen: map[string]bool{}, sample: []inputRec{}}
 	g := newGen()
 
 	if *replay != "" {
